@@ -88,12 +88,9 @@ class FnPass:
         elif k in ("Ref", "Box"):
             self.bind(pat["pat"], t)
         elif k == "Tuple":
-            init = strip(init) if init else None
+            tags = self.tuple_tags(init) if init is not None else None
             for i, q in enumerate(pat["pats"]):
-                ti = None
-                if init is not None and init.get("k") == "Tup" and i < len(init["es"]):
-                    ti = self.tag(init["es"][i])
-                self.bind(q, ti)
+                self.bind(q, tags[i] if tags and i < len(tags) else None)
         elif k == "TupleStruct":
             for q in pat["pats"]:
                 self.bind(q, t)
@@ -105,6 +102,34 @@ class FnPass:
                     self.bind(f["pat"], self.U.field[f["name"]])
                 else:
                     self.bind(f["pat"], None)
+
+    def tuple_tags(self, n):
+        """per-component tags of a tuple-valued expression (tuple literal, or match/if/block yielding tuples)"""
+        n = strip(n)
+        k = n.get("k")
+        if k == "Tup":
+            return [self.tag(e) for e in n["es"]]
+        if k == "Block" and n.get("e") is not None:
+            for s_ in n["stmts"]:
+                self.tag(s_)
+            return self.tuple_tags(n["e"])
+        if k == "Match":
+            st = self.tag(n["scrut"])
+            out = None
+            for a in n["arms"]:
+                self.bind(a["pat"], st)
+                t = self.tuple_tags(a["body"])
+                if t:
+                    out = [x or y for x, y in zip(out, t)] if out else t
+            return out
+        if k == "If":
+            self.tag(n["c"])
+            a = self.tuple_tags(n["then"])
+            b = self.tuple_tags(n["else"]) if n.get("else") else None
+            if a and b:
+                return [x or y for x, y in zip(a, b)]
+            return a or b
+        return None
 
     def local_fn(self, d):
         if d is None:
@@ -159,6 +184,9 @@ class FnPass:
         return None
 
     def t_LetStmt(self, n):
+        if n.get("init") is not None and n["pat"].get("k") == "Tuple":
+            self.bind(n["pat"], None, n["init"])
+            return None
         t = self.tag(n["init"]) if n.get("init") is not None else None
         self.bind(n["pat"], t, n.get("init"))
         if n.get("els"):
